@@ -246,3 +246,163 @@ _mk(0, 'lit')
 for _n in range(1, 5):
     for _last in ('lit', 'name', '?', '+', '*'):
         _mk(_n, _last)
+
+
+# ------------------------------------------------------------------------------------------ getRoute / registerRoutes / dispatch
+# compiled patterns and endpoints are known by integer ids; MATCH(regex id, path) is the (uninterpreted) matching relation,
+# whose meaning per pattern is what the language lemmas above decide.
+MATCH = z3.Function('regex_matches', z3.IntSort(), Str, z3.BoolSort())
+I = z3.IntSort()
+
+
+class MatchObj:
+    def __init__(self, rid):
+        self.rid = rid
+
+    def pv_getattr(self, ip, name):
+        if name == 'groups':
+            return Builtin('match.groups', lambda ip: ())
+        ip.ctx.raise_exc('AttributeError', name)
+
+
+class RegexVal:
+    def __init__(self, rid):
+        self.rid = rid
+
+    def pv_getattr(self, ip, name):
+        if name == 'match':
+            def match(ip, path):
+                if ip.ctx.branch(ops.sbool(MATCH(self.rid, ops.term(path)))):
+                    ip.state.ghost['matched'] = (self.rid, ops.term(path))
+                    return MatchObj(self.rid)
+                return None
+            return Builtin('regex.match', match)
+        ip.ctx.raise_exc('AttributeError', name)
+
+
+class EndptVal:
+    def __init__(self, eid):
+        self.eid = eid
+
+
+def regex_kind():
+    return Kind('custom', None, (I, lambda ip, t: RegexVal(t), lambda ip, v: v.rid))
+
+
+def endpt_kind():
+    return Kind('custom', None, (I, lambda ip, t: EndptVal(t), lambda ip, v: v.eid if hasattr(v, 'eid') else v.rid))
+
+
+def tokens_kind():
+    return Kind('custom', None, (I, lambda ip, t: (), lambda ip, v: z3.IntVal(0)))
+
+
+def triple_kind():
+    return Kind('pair', None, (regex_kind(), tokens_kind(), endpt_kind()))
+
+
+def make_router(E):
+    tables = {}
+    d = E.dict([])
+    for m in ('DELETE', 'GET', 'POST', 'PUT'):
+        t = E.symseq('table_' + m, triple_kind())
+        tables[m] = t
+        d.keys.append(m)
+        d.vals.append(t)
+    return E.obj('http_server.Router', tag='self', route_table=d, routes=E.symseq('routes_list', Kind('custom', None, (I, lambda ip, t: EndptVal(t), lambda ip, v: v.eid if hasattr(v, 'eid') else v.rid)))), tables
+
+
+def acc(i):
+    return pair_sort(I, I, I)[2][i]
+
+
+def gr_pre(ip, frame, env):
+    ip.state.ghost['cur'] = S.term(env['_i'], 'int')
+
+
+@contract('http_server.Router.getRoute', props=['C16'])
+class _:
+    """first registered matching route of the request's method, matched against the request path itself"""
+    def setup(E):
+        router, tables = make_router(E)
+        E.ghost('tables', tables)
+        E.ghost('cur', z3.IntVal(-1))
+        return dict(self=router, method=E.str('method'), path=E.str('path'))
+    skolems = {'j': 'int'}
+    loops = {0: LoopSpec(
+        invariant={'no-earlier-entry-matches': lambda _it, _i, path, j: S.bool(z3.Implies(
+            z3.And(0 <= S.term(j), S.term(j) < S.term(_i, 'int')), z3.Not(MATCH(acc(0)(z3.Select(_it.arr, S.term(j))), S.term(path)))))},
+        havoc=['ghost.cur'], ghost_pre=gr_pre, label='table-scan')}
+    ensures = {
+        'first-matching-route-of-the-method': lambda method, path, result, ghost, j: first_match_clause(method, path, result, ghost, j),
+    }
+    modifies = []
+
+
+def first_match_clause(method, path, result, ghost, j):
+    goal = True
+    for m, t in ghost.tables.items():
+        is_m = ops.equal(method, m)
+        if result is None:
+            # None: no entry of this method's table matches the request path
+            c = S.bool(z3.Implies(z3.And(0 <= S.term(j), S.term(j) < t.n), z3.Not(MATCH(acc(0)(z3.Select(t.arr, S.term(j))), S.term(path)))))
+        else:
+            i = ghost.cur
+            ent = z3.Select(t.arr, i)
+            c = S.bool(z3.And(0 <= i, i < t.n, MATCH(acc(0)(ent), S.term(path)), result[0].eid == acc(2)(ent),
+                              z3.Implies(z3.And(0 <= S.term(j), S.term(j) < i), z3.Not(MATCH(acc(0)(z3.Select(t.arr, S.term(j))), S.term(path))))))
+        goal = ops.and_(goal, ops.implies(is_m, c))
+    if result is not None:
+        goal = ops.and_(goal, S.Or(*[ops.equal(method, m) for m in ghost.tables]))
+    return goal
+
+
+class RouteVal:
+    """an element of the `routes` argument: pattern id (compiled regex id), method, itself as endpoint id"""
+    def __init__(self, rid):
+        self.rid = rid
+
+    def pv_getattr(self, ip, name):
+        if name == 'pattern':
+            return PatternVal(self.rid)
+        if name == 'method':
+            return Sym(z3.Function('route_method', I, Str)(self.rid), 'str')
+        ip.ctx.raise_exc('AttributeError', name)
+
+
+class PatternVal:
+    def __init__(self, rid):
+        self.rid = rid
+
+
+def ptr_model(ip, self, pattern):
+    """patternToRegex as used by registerRoutes: the compiled regex of this route's pattern (id = route id) and its tokens"""
+    return (RegexVal(pattern.rid), ())
+
+
+@contract('http_server.Router.registerRoutes', props=['C16'])
+class _:
+    """registration order is kept: entries already in a method's table keep their positions, new ones are appended"""
+    def setup(E):
+        router, tables = make_router(E)
+        E.ghost('tables', tables)
+        routes = E.symseq('new_routes', Kind('custom', None, (I, lambda ip, t: RouteVal(t), lambda ip, v: v.rid)))
+        return dict(self=router, routes=routes)
+    hooks = {'model:http_server.Router.patternToRegex': ptr_model}
+    skolems = {'j': 'int'}
+    may_raise = ['ValueError']
+    loops = {0: LoopSpec(
+        invariant={'earlier-entries-keep-their-position': lambda old, self, ghost, j: keep_positions(old, self, ghost, j)},
+        havoc=['self.routes'] + ['self.route_table'], label='register-loop')}
+    ensures = {
+        'earlier-entries-keep-their-position': lambda old, self, ghost, j: keep_positions(old, self, ghost, j),
+    }
+
+
+def keep_positions(old, self, ghost, j):
+    goal = True
+    for k, (m, t_live) in enumerate(zip(self.route_table.keys, self.route_table.vals)):
+        t_old = old.self.route_table.vals[k]
+        goal = ops.and_(goal, S.bool(z3.And(t_live.n >= t_old.n, z3.Implies(
+            z3.And(0 <= S.term(j), S.term(j) < t_old.n), z3.Select(t_live.arr, S.term(j)) == z3.Select(t_old.arr, S.term(j))))))
+    return goal
